@@ -43,6 +43,8 @@ func init() {
 }
 
 func runC29(c *core.Ctx) {
+	c.Rule("LOOPCLOSURE", "no function literal that outlives its iteration uses a shared loop variable")
+	checkLoopClosures(c, "LOOPCLOSURE", []string{"cmd", "plugins", "datasources", "execution", "logical", "physical", "optimizer", "outputs", "functions", "aggregates", "table_valued_functions", "config", "helpers", "parser", "octosql", "telemetry"})
 	c.Rule("CLOSE", "join producer goroutines always close their channel last")
 	c.Rule("SEL", "json goroutines send only under a select with Done")
 	c.Rule("LOCAL", "fastjson.Parser is goroutine-local")
